@@ -1816,15 +1816,16 @@ func realCase(e *lp.Exec, c cfg) {
 	idle := func() {
 		// no input pending: the readers must be idle. A spinning goroutine burns a whole core for as long as it is looked at,
 		// so the bound is relative to the time that REALLY elapsed (a sleep oversleeps on a loaded machine, and the process's
-		// background work grows with it): half a core in each of four consecutive windows; one window below that acquits
-		for try := 0; try < 4; try++ {
+		// background work grows with it): half a core in each of sixteen consecutive windows (≈ 1 s; what the previous case's engine still does
+		// while it shuts down calms down within that); one window below that acquits
+		for try := 0; try < 16; try++ {
 			c0, w0 := cpuTime(), time.Now()
 			time.Sleep(60 * time.Millisecond)
 			used, el := cpuTime()-c0, time.Since(w0)
 			if used < el/2 {
 				return
-			} else if try == 3 {
-				e.Oracle("c02-spin", "%s: %v CPU in a %v window with no input pending (fourth window in a row above half a core)", tag, used, el.Round(time.Millisecond))
+			} else if try == 15 {
+				e.Oracle("c02-spin", "%s: %v CPU in a %v window with no input pending (sixteenth window in a row above half a core)", tag, used, el.Round(time.Millisecond))
 			}
 		}
 	}
